@@ -1,9 +1,14 @@
 package sim
 
 import (
+	"bytes"
 	"fmt"
+	"os"
+	"os/exec"
+	"path/filepath"
 	"strings"
 	"testing"
+	"time"
 )
 
 // C12: results are a function of the inputs: independent of --cpu, scheduling
@@ -172,7 +177,76 @@ func (c12) Eval(t *testing.T, c *Case, dec func(int) *Decider) *Outcome {
 			o.Stats.probe("repeat-schedule-diverged")
 		}
 	}
+	// real-process tier: the real binary with free goroutine scheduling, --cpu 1 against
+	// --cpu n (covers interleavings inside the evaluation of one row, which the simulated
+	// schedules do not produce)
+	if bin := os.Getenv("VERIF_CSVQ_BIN"); bin != "" && strings.Count(sc.Files[0].Content, "\n") > 165 && sc.Knobs.MinPerCore == 0 && Sub(c.Seed, "real").Bool(0.5) {
+		ref, err1 := realQueryRun(bin, sc, 1)
+		o.RealProc++
+		if err1 != nil {
+			o.Infra = append(o.Infra, "real-process tier: "+err1.Error())
+		} else {
+			for _, cpu := range []int{vs[0].CPU, 16} {
+				for rep := 0; rep < 2; rep++ {
+					got, err := realQueryRun(bin, sc, cpu)
+					o.RealProc++
+					if err != nil {
+						o.Infra = append(o.Infra, "real-process tier: "+err.Error())
+						break
+					}
+					if got != ref {
+						o.viol(prop, "cpu-and-schedule-independence", "real-differs-from-cpu1:"+diffSig(sc, ref, got),
+							fmt.Sprintf("REAL csvq process with --cpu %d (free scheduling) gives a different result than --cpu 1: %s", cpu, firstDiff(ref, got)))
+						break
+					}
+					o.Stats.probe("real-cpuN-equals-cpu1")
+				}
+			}
+		}
+	}
 	o.Sample = map[string]interface{}{"seed": c.Seed, "program": sc.Procs[0].Program, "rows_a": strings.Count(sc.Files[0].Content, "\n") - 1,
 		"rows_b": strings.Count(sc.Files[1].Content, "\n") - 1, "variants": vs, "knobs": sc.Knobs, "reference_output_bytes": len(want)}
 	return o
+}
+
+// realQueryRun runs the scenario's program in the real csvq binary on a fresh
+// copy of the tables and returns stdout, exit status and the written files.
+func realQueryRun(bin string, sc *Scenario, cpu int) (string, error) {
+	setupBase()
+	dir, err := os.MkdirTemp(BaseDir, "real12-")
+	if err != nil {
+		return "", err
+	}
+	defer os.RemoveAll(dir)
+	if err := writeFiles(dir, sc.Files); err != nil {
+		return "", err
+	}
+	cmd := exec.Command(bin, "--repository", dir, "--quiet", "--cpu", fmt.Sprint(cpu), "--format", "CSV", sc.Procs[0].Program)
+	cmd.Dir = filepath.Join(BaseDir, "cwd")
+	var stdout, stderr bytes.Buffer
+	cmd.Stdout, cmd.Stderr = &stdout, &stderr
+	done := make(chan error, 1)
+	if err := cmd.Start(); err != nil {
+		return "", err
+	}
+	go func() { done <- cmd.Wait() }()
+	select {
+	case err := <-done:
+		code := 0
+		if ee, ok := err.(*exec.ExitError); ok {
+			code = ee.ExitCode()
+		} else if err != nil {
+			return "", err
+		}
+		var b strings.Builder
+		fmt.Fprintf(&b, "exit=%d err=%s\n--stdout--\n%s\n--files--\n", code, strings.ReplaceAll(firstLine(stderr.String()), dir, "$R"), stdout.String())
+		st := SnapshotDir(dir)
+		for _, n := range st.Names() {
+			fmt.Fprintf(&b, "%s:\n%s\n", n, st[n].Data)
+		}
+		return b.String(), nil
+	case <-time.After(120 * time.Second):
+		_ = cmd.Process.Kill()
+		return "", fmt.Errorf("the real binary did not finish within 120 s with --cpu %d", cpu)
+	}
 }
